@@ -235,6 +235,7 @@ func main() {
 	}
 	skipping := *after != ""
 	nrun := 0
+	lastID := *after
 	for idx, cs := range cases {
 		if *only != "" {
 			if cs.ID != *only {
@@ -251,6 +252,13 @@ func main() {
 				continue
 			}
 		}
+		if vh.PortsLeft() < 12 && nrun > 0 {
+			// every emulator instance keeps its TCP port until the process ends:
+			// hand over to a fresh process
+			emit(map[string]interface{}{"paused_after": lastID, "ran": nrun})
+			return
+		}
+		lastID = cs.ID
 		emit(map[string]string{"start": cs.ID})
 		ctx := &Ctx{Tier: *tier, Seed: *seed, WantSample: nrun < *sampleN || *only != ""}
 		ctx.res.Done = cs.ID
